@@ -176,10 +176,8 @@ pub(crate) struct Endpoint {
     wh: Option<UtpStreamWriteHalf>,
     dc: std::sync::Arc<crate::util::CountingWaker>,
     dw: std::task::Waker,
-    rc: std::sync::Arc<crate::util::CountingWaker>,
-    rw: std::task::Waker,
-    wc: std::sync::Arc<crate::util::CountingWaker>,
-    ww: std::task::Waker,
+    rset: crate::util::WakerSet,
+    wset: crate::util::WakerSet,
     pub finished: bool,
 }
 
@@ -259,18 +257,14 @@ impl Endpoint {
         let mut d = v::VsockDriver::new(opts, ipv4, kind).map_err(|_| ())?;
         let (rh, wh) = d.stream.take().unwrap().split();
         let (dc, dw) = counting_waker();
-        let (rc, rw) = counting_waker();
-        let (wc, ww) = counting_waker();
         Ok(Endpoint {
             d: Some(d),
             rh: Some(rh),
             wh: Some(wh),
             dc,
             dw,
-            rc,
-            rw,
-            wc,
-            ww,
+            rset: crate::util::WakerSet::new(),
+            wset: crate::util::WakerSet::new(),
             finished: false,
         })
     }
@@ -279,9 +273,15 @@ impl Endpoint {
     /// returned (vsock component) instead of their hash (pair component).
     pub fn op(&mut self, tok: &str, full_bytes: bool) -> OpResult {
         let mut dcx = Context::from_waker(&self.dw);
-        let mut rcx = Context::from_waker(&self.rw);
-        let mut wcx = Context::from_waker(&self.ww);
         let (c, rest) = tok.split_at(1);
+        // every application call is made under a fresh waker (see util::WakerSet)
+        let rw = if c == "R" { Some(self.rset.fresh()) } else { None };
+        let ww = if matches!(c, "W" | "F" | "H") { Some(self.wset.fresh()) } else { None };
+        let noop = std::task::Waker::from(std::sync::Arc::new(crate::util::CountingWaker(
+            std::sync::atomic::AtomicUsize::new(0),
+        )));
+        let mut rcx = Context::from_waker(rw.as_ref().unwrap_or(&noop));
+        let mut wcx = Context::from_waker(ww.as_ref().unwrap_or(&noop));
         if c == "X" {
             // the connection future is dropped without having returned (cancellation): Drop for VirtualSocket
             self.d = None;
@@ -436,6 +436,11 @@ impl Endpoint {
             }
             _ => "BADOP".into(),
         };
+        match res.as_str() {
+            "RPEND" if rest != "0" => self.rset.returned_pending(),
+            "WP" | "UPEND" => self.wset.returned_pending(),
+            _ => {}
+        }
         OpResult {
             res,
             is_poll,
@@ -450,8 +455,10 @@ impl Endpoint {
 
     /// Application ops once the connection object is gone: only the halves are left.
     fn app_op_after_drop(&mut self, c: &str, rest: &str, full_bytes: bool) -> OpResult {
-        let mut rcx = Context::from_waker(&self.rw);
-        let mut wcx = Context::from_waker(&self.ww);
+        let rw = self.rset.fresh();
+        let ww = self.wset.fresh();
+        let mut rcx = Context::from_waker(&rw);
+        let mut wcx = Context::from_waker(&ww);
         let mut read: Vec<u8> = Vec::new();
         let mut wrote = 0usize;
         let res: String = match c {
@@ -530,6 +537,11 @@ impl Endpoint {
             }
             _ => "BADOP".into(),
         };
+        match res.as_str() {
+            "RPEND" if rest != "0" => self.rset.returned_pending(),
+            "WP" | "UPEND" => self.wset.returned_pending(),
+            _ => {}
+        }
         OpResult { res, is_poll: false, read, wrote }
     }
 
@@ -539,14 +551,10 @@ impl Endpoint {
     }
 
     /// The wake-ups fired since the last call: reader, writer, dispatcher.
-    pub fn wakes(&self) -> String {
+    pub fn wakes(&mut self) -> String {
         let mut wakes = String::new();
-        for _ in 0..self.rc.take().min(1) {
-            wakes.push('R');
-        }
-        for _ in 0..self.wc.take().min(1) {
-            wakes.push('W');
-        }
+        wakes.push_str(&self.rset.letters('R', 'r', true));
+        wakes.push_str(&self.wset.letters('W', 'w', true));
         for _ in 0..self.dc.take().min(1) {
             wakes.push('D');
         }
